@@ -1,7 +1,7 @@
 #!/bin/bash
-# usage: tools/mkmut.sh <name>  — scratch git worktree of /repo for a mutant-writing agent (under /tmp/mut/<name>)
+# usage: tools/mkmut.sh <name>  — scratch git worktree of /repo for a mutant-writing agent (under /tmp/mutw/<name>)
 set -e
 n=$1
-git -C /repo worktree add -f --detach /tmp/mut/$n HEAD >/dev/null 2>&1
-cp -r /repo/target /tmp/mut/$n/target
-echo /tmp/mut/$n
+git -C /repo worktree add -f --detach /tmp/mutw/$n HEAD >/dev/null 2>&1
+cp -r /repo/target /tmp/mutw/$n/target
+echo /tmp/mutw/$n
